@@ -172,7 +172,7 @@ def permute_row(rowobs, i, j):
 
 
 def run_md(engine, mols, params, steps, dt=0.5, temp=0.0, velocities=None, pad_extra=0, pattern="zero", k=3,
-           xl_extra=None, seed=0, horizon=None, remove_com=None):  # fmt: skip
+           xl_extra=None, seed=0, horizon=None, remove_com=None, molid=None):  # fmt: skip
     """Like drivers.md.run_md but the batch is assembled by `assemble` (per-slot padding coordinates).
     `velocities`: list of per-molecule (n_atoms, 3) arrays (padding slots get zero velocity).
     Returns h5.<k> dataset dicts, stdout, error, the assembled input coordinates and the final coordinates."""
@@ -190,7 +190,7 @@ def run_md(engine, mols, params, steps, dt=0.5, temp=0.0, velocities=None, pad_e
         species, xyz, _, _ = assemble(mols, pad_extra, pattern)
         molecule, _ = build(mols, params, pad_extra, pattern)
         nmol = len(mols)
-        o = MD.output_cfg("md", list(range(nmol)))
+        o = MD.output_cfg("md", list(molid) if molid is not None else list(range(nmol)))  # order of the output request
         md = MD.make_engine(engine, params, dt, temp, o, k=k, xl_extra=xl_extra)
         if velocities is not None:
             v = np.zeros_like(xyz)
